@@ -10,6 +10,7 @@ import (
 	"verif/harness"
 	"verif/peer"
 	"verif/ref"
+	"verif/vsched"
 )
 
 // C08 — the server reacts to each frame as its stream's RFC 7540 state
@@ -880,6 +881,7 @@ type c08Case struct {
 	Single  bool    `json:"single_stream_alphabet"`
 	Path    []int   `json:"path"`
 	Events  []c08Ev `json:"events"`
+	Seg     int     `json:"seg,omitempty"` // harness.SegMode the case ran under
 }
 
 // c08Exec runs path; returns the menu size after it (0 if dead or violating)
@@ -913,28 +915,38 @@ func runC08(c *fw.Ctx) {
 		prelude string
 		single  bool
 		depth   int
+		seg     int // the same frames with the transport cutting the octets differently (harness.SegMode)
 	}
-	cfgs := []cfg{{"none", false, 3}, {"completed", false, 3}, {"none", true, 5}, {"peer-reset", false, 2}, {"slots-taken", false, 2}}
+	cfgs := []cfg{{"none", false, 3, 0}, {"completed", false, 3, 0}, {"none", true, 5, 0}, {"peer-reset", false, 2, 0}, {"slots-taken", false, 2, 0}, {"none", false, 2, 2}, {"none", false, 2, 3}, {"none", true, 3, 1}}
 	if thorough {
-		cfgs = []cfg{{"none", false, 4}, {"completed", false, 4}, {"peer-reset", false, 3}, {"none", true, 7}, {"slots-taken", false, 3}}
+		cfgs = []cfg{{"none", false, 4, 0}, {"completed", false, 4, 0}, {"peer-reset", false, 3, 0}, {"none", true, 7, 0}, {"slots-taken", false, 3, 0}, {"none", false, 3, 2}, {"none", false, 3, 3}, {"none", true, 4, 1}, {"completed", false, 2, 1}}
 	}
 	sampled := 0
 	for _, cf := range cfgs {
-		c.Bound[fmt.Sprintf("depth prelude=%s single=%v", cf.prelude, cf.single)] = cf.depth
+		bkey := fmt.Sprintf("depth prelude=%s single=%v", cf.prelude, cf.single)
+		if cf.seg != 0 {
+			if vsched.DefaultPolicy != 0 {
+				continue
+			}
+			bkey += fmt.Sprintf(" segmentation-mode=%d", cf.seg)
+		}
+		c.Bound[bkey] = cf.depth
 		done := harness.Explore(c, "C08 "+cf.prelude, cf.depth, 2, func(path []int) int {
+			harness.SegMode = cf.seg
 			menu, v, evs, x := c08Exec(cf.prelude, cf.single, path)
+			harness.SegMode = 0
 			defer x.h.Close()
 			if len(path) > 0 {
 				key := uint64(0)
 				if x.r.nstreams >= 2 || len(path) >= 2 {
-					key = fw.Hash(cf.prelude, cf.single, fmt.Sprint(evs))
+					key = fw.Hash(cf.prelude, cf.single, cf.seg, fmt.Sprint(evs))
 				}
 				c.Eval(key)
 				c.AddTransitions(1)
 				c.AddTraces(1)
 				c.State(fw.Hash(x.h.Digest()))
 				if v != nil {
-					v.Replay = map[string]any{"family": "c08", "case": c08Case{cf.prelude, cf.single, append([]int{}, path...), evs}}
+					v.Replay = map[string]any{"family": "c08", "case": c08Case{cf.prelude, cf.single, append([]int{}, path...), evs, cf.seg}}
 					c.Violate(*v)
 					c.Outcome(v.Rule)
 				} else if len(x.trace) > 0 {
@@ -951,7 +963,7 @@ func runC08(c *fw.Ctx) {
 			return menu
 		})
 		if !done {
-			c.Bound[fmt.Sprintf("depth prelude=%s single=%v", cf.prelude, cf.single)] = fmt.Sprintf("%d (time budget reached before the space was covered)", cf.depth)
+			c.Bound[bkey] = fmt.Sprintf("%d (time budget reached before the space was covered)", cf.depth)
 		}
 	}
 }
@@ -976,7 +988,9 @@ func replayC08(raw json.RawMessage) (string, bool) {
 	if err := json.Unmarshal(raw, &r); err != nil {
 		return err.Error(), false
 	}
+	harness.SegMode = r.Case.Seg
 	_, v, _, x := c08Exec(r.Case.Prelude, r.Case.Single, r.Case.Path)
+	harness.SegMode = 0
 	defer x.h.Close()
 	if v != nil {
 		return v.Rule + " [" + v.Shape + "]: " + v.Detail, true
